@@ -148,5 +148,5 @@ def run():
                        "machine where the OS-reported affinity of every worker is used; each outcome is validated by TLC "
                        "against AffinityAbs!Accept; non-trivial = mask with more than one PU")
     chk.assumptions += ["synthetic topologies: binding calls are observed through the masks pika computes (hwloc cannot bind "
-                        "on a synthetic machine); real binding is observed on the one real topology only"]
+                        "on a synthetic machine); real binding is observed on the one real topology and on synthetic SMT-numbered topologies mapped onto it"]
     return chk.finish()
